@@ -106,6 +106,70 @@ pub fn gen_req(r: &mut Rng, fi: &FontInfo, max_len: usize) -> Req {
     }
 }
 
+/// Coarse "combining" test used only to bias generated texts (marks, matras, viramas, jamo V/T, tone marks).
+pub fn markish(c: u32) -> bool {
+    if (0x900..0xE00).contains(&c) {
+        let o = c & 0x7F;
+        return o <= 0x03 || (0x3A..=0x4F).contains(&o) || (0x51..=0x57).contains(&o) || (0x62..=0x63).contains(&o);
+    }
+    matches!(c,
+        0x300..=0x36F | 0x483..=0x489 | 0x591..=0x5BD | 0x5BF | 0x5C1..=0x5C2 | 0x5C4..=0x5C5 | 0x5C7 | 0x610..=0x61A
+        | 0x64B..=0x65F | 0x670 | 0x6D6..=0x6DC | 0x6DF..=0x6E4 | 0x6E7..=0x6E8 | 0x6EA..=0x6ED | 0x711 | 0x730..=0x74A
+        | 0xE31 | 0xE34..=0xE3A | 0xE47..=0xE4E | 0xEB1 | 0xEB4..=0xEBC | 0xEC8..=0xECD | 0xF18..=0xF19 | 0xF35 | 0xF37 | 0xF39
+        | 0xF71..=0xF84 | 0xF8D..=0xFBC | 0x102B..=0x103E | 0x1056..=0x1059 | 0x105E..=0x1060 | 0x1160..=0x11FF | 0x17B4..=0x17D3
+        | 0x180B..=0x180D | 0x1A17..=0x1A1B | 0x1A55..=0x1A7F | 0x1AB0..=0x1AFF | 0x1B00..=0x1B04 | 0x1B34..=0x1B44 | 0x1DC0..=0x1DFF
+        | 0x20D0..=0x20FF | 0x302A..=0x302F | 0x3099..=0x309A | 0xA806 | 0xA8E0..=0xA8F1 | 0xFE00..=0xFE0F | 0xFE20..=0xFE2F
+        | 0x1F3FB..=0x1F3FF | 0xE0100..=0xE01EF)
+}
+
+/// Structured text: bases from one neighbourhood of the font's characters, each followed by up to a few
+/// combining characters of the font (same block when there is one), with joiners, tone marks, the dotted
+/// circle and variation selectors sprinkled in whether or not the font maps them.
+pub fn gen_text_structured(r: &mut Rng, chars: &[u32], max_len: usize) -> Vec<u32> {
+    const SPECIAL: [u32; 10] = [0x200C, 0x200D, 0x034F, 0xFE0F, 0x302E, 0x302F, 0x25CC, 0x0640, 0x00AD, 0x2060];
+    let marks: Vec<u32> = chars.iter().cloned().filter(|c| markish(*c)).collect();
+    let n = r.range(2, max_len.max(3) as u64) as usize;
+    let base = r.below(chars.len() as u64) as usize;
+    let mut out: Vec<u32> = Vec::with_capacity(n);
+    let mut last_base = chars[base];
+    while out.len() < n {
+        match r.below(16) {
+            0..=6 => {
+                let c = chars[(base + r.below(24) as usize) % chars.len()];
+                if !markish(c) {
+                    last_base = c;
+                }
+                out.push(c);
+            }
+            7..=11 if !marks.is_empty() => {
+                let near: Vec<u32> = marks.iter().cloned().filter(|m| (m >> 7) == (last_base >> 7) || (m >> 8) == (last_base >> 8)).collect();
+                let pool = if !near.is_empty() && !r.chance(1, 5) { &near } else { &marks };
+                out.push(*r.pick(pool));
+            }
+            12 | 13 => out.push(*r.pick(&SPECIAL)),
+            _ => {
+                if let Some(&c) = out.last() {
+                    out.push(c);
+                } else {
+                    out.push(last_base);
+                }
+            }
+        }
+    }
+    out
+}
+
+/// gen_req with a third of the texts structured (see gen_text_structured).
+pub fn gen_req_s(r: &mut Rng, fi: &FontInfo, max_len: usize) -> Req {
+    let mut req = gen_req(r, fi, max_len);
+    if r.chance(1, 3) {
+        let text = gen_text_structured(r, &fi.chars, max_len);
+        let cl = gen_clusters(r, text.len());
+        req.text = text.into_iter().zip(cl.into_iter()).collect();
+    }
+    req
+}
+
 pub fn shape_catch(data: &[u8], req: &Req) -> Result<Vec<G>, String> {
     let d = data.to_vec();
     let rq = req.clone();
@@ -253,7 +317,7 @@ fn c02(r: &mut Rng, fonts: &[FontInfo], n: u64, tr: &mut Option<std::fs::File>) 
     // dedicated pass: fonts with legacy kern/kerx x four directions x kerning on/off (reversal pairing)
     for fi in fonts.iter().filter(|f| f.has_kern) {
         for k in 0..48u32 {
-            let mut req = gen_req(r, fi, 12);
+            let mut req = gen_req_s(r, fi, 12);
             req.dir = Some(DIRS[(k % 4) as usize]);
             req.features = if k % 8 < 4 { vec!["kern=0".into()] } else { vec![] };
             req.level = (k % 2) as u8;
@@ -264,7 +328,7 @@ fn c02(r: &mut Rng, fonts: &[FontInfo], n: u64, tr: &mut Option<std::fs::File>) 
     }
     for i in 0..n {
         let fi = &fonts[r.below(fonts.len() as u64) as usize];
-        let mut req = gen_req(r, fi, 24);
+        let mut req = gen_req_s(r, fi, 24);
         // kerning off in a good share of the cases on fonts with kern tables (reversal pairing)
         if fi.has_kern && r.chance(1, 2) {
             req.features = vec!["kern=0".into()];
@@ -488,7 +552,7 @@ fn c15(r: &mut Rng, fonts: &[FontInfo], n: u64, tr: &mut Option<std::fs::File>) 
     let mut cnt = Counters::default();
     for i in 0..n {
         let fi = &fonts[r.below(fonts.len() as u64) as usize];
-        let mut req = gen_req(r, fi, 16);
+        let mut req = gen_req_s(r, fi, 16);
         // ranged features are covered by C14 on generated fonts; here only global ones, so that the
         // known class feature_range_splits_grapheme cannot arise
         req.features.retain(|f| !f.contains('['));
@@ -598,9 +662,17 @@ fn c05(r: &mut Rng, fonts: &[FontInfo], n: u64, tr: &mut Option<std::fs::File>) 
         let steps = r.range(2, 6);
         let mut reqs: Vec<Req> = Vec::new();
         for _ in 0..steps {
-            let mut rq = gen_req(r, fi, 20);
+            let mut rq = gen_req_s(r, fi, 20);
             match r.below(12) {
                 0 => rq.text.clear(), // empty text
+                2 | 3 => {
+                    // script-neutral text (digits, punctuation): direction and script are guessed from
+                    // whatever the buffer exposes, so anything a recycled buffer still holds shows here
+                    let k = r.range(1, 6) as usize;
+                    rq.text = (0..k).map(|j| (*r.pick(&[0x30u32, 0x31, 0x39, 0x2E, 0x2F, 0x20, 0x2D, 0x28]), j as u32)).collect();
+                    rq.dir = None;
+                    rq.script = None;
+                }
                 1 => {
                     // long text: beyond the default 16384 budget floor
                     let k = 16500 + r.below(6000) as usize;
@@ -738,7 +810,7 @@ pub fn check_c01(path: &str, data: &[u8], req: &Req, cnt: &mut Counters) {
     cnt.evals += 1;
     let d = data.to_vec();
     let rq = req.clone();
-    let res = catch(move || {
+    let res = catch_loc(move || {
         let Some(f) = Face::from_slice(&d, 0) else { return None };
         let b = fill(&rq, UnicodeBuffer::new());
         let feats = features_of(&rq);
@@ -769,7 +841,7 @@ fn c01(r: &mut Rng, fonts: &[FontInfo], n: u64, tr: &mut Option<std::fs::File>, 
     let langs = ["a-é", "é", "x-hbot", "x-hbsc-", "zz-", "-", "en-", "en--us", "\u{1F600}", "x-hbotABCD", "aaaaaaaaaaaaaaaaaaaaaaaaaaaaaaaaaaaaaaaaaaaaaaaaa", "zh-\u{4E2D}", "e\u{301}-x"];
     for i in 0..n {
         let fi = &fonts[r.below(fonts.len() as u64) as usize];
-        let mut req = gen_req(r, fi, 40);
+        let mut req = gen_req_s(r, fi, 40);
         match r.below(16) {
             0 => req.lang = Some((*r.pick(&langs)).to_string()),
             1 => {
